@@ -50,6 +50,31 @@ pub fn small_case(case_seed: u64, nmax: usize) -> SmallCase {
     }
 }
 
+/// all ADFs over n statements in which every condition is one of the 2^(2^n) Boolean functions
+/// (n = 1: 4 ADFs, n = 2: 256 ADFs), each written in one of three styles. Complete for that space.
+pub fn all_tiny_adfs() -> Vec<SmallCase> {
+    let mut out = Vec::new();
+    for n in 1..=2usize {
+        let nfun = 1usize << (1 << n);
+        let total = nfun.pow(n as u32);
+        for code in 0..total {
+            let mut ac = Vec::new();
+            let mut c = code;
+            for s in 0..n {
+                let f = c % nfun;
+                c /= nfun;
+                let tt = oracle::TT::from_fn(n, |a| (f >> a) & 1 == 1);
+                ac.push(oracle::F::from_tt(&tt, (code + s) % 3));
+            }
+            let g = GenAdf { n, labels: (0..n).map(|i| ["p", "q"][i].to_string()).collect(), ac, family: "exhaustive-tiny" };
+            let text = g.canonical();
+            let sem = Sem::new(&g.ac);
+            out.push(SmallCase { g, text, sem, bio_ok: true });
+        }
+    }
+    out
+}
+
 fn replay_of(cfg: &Cfg, case_seed: u64, case: &SmallCase, extra: Value) -> Value {
     json!({
         "property": cfg.prop,
@@ -132,6 +157,12 @@ fn what_class(what: &str) -> String {
 
 pub fn c01(cfg: &Cfg, rep: &mut Report) {
     let nm = nmax(cfg);
+    if cfg.shard == 0 && !cfg.flag("no_exhaustive") {
+        for (i, case) in all_tiny_adfs().iter().enumerate() {
+            c01_check(cfg, rep, i as u64, case);
+            rep.count("exhaustive_tiny_adfs", 1);
+        }
+    }
     for i in 0..cfg.cases {
         if rep.too_many() {
             break;
@@ -152,6 +183,10 @@ pub fn c01(cfg: &Cfg, rep: &mut Report) {
 
 pub fn c01_case(cfg: &Cfg, rep: &mut Report, case_seed: u64, nm: usize) {
     let case = small_case(case_seed, nm);
+    c01_check(cfg, rep, case_seed, &case);
+}
+
+pub fn c01_check(cfg: &Cfg, rep: &mut Report, case_seed: u64, case: &SmallCase) {
     let mut rng = Rng::new(case_seed ^ 0xC01);
     let (want, rounds) = case.sem.grounded_rounds();
     rep.evaluations += 1;
@@ -266,6 +301,12 @@ fn c01_large(cfg: &Cfg, rep: &mut Report, case_seed: u64) {
 
 pub fn c02(cfg: &Cfg, rep: &mut Report) {
     let nm = nmax(cfg);
+    if cfg.shard == 0 && !cfg.flag("no_exhaustive") {
+        for (i, case) in all_tiny_adfs().iter().enumerate() {
+            c02_check(cfg, rep, i as u64, case);
+            rep.count("exhaustive_tiny_adfs", 1);
+        }
+    }
     for i in 0..cfg.cases {
         if rep.too_many() {
             break;
@@ -276,6 +317,10 @@ pub fn c02(cfg: &Cfg, rep: &mut Report) {
 
 pub fn c02_case(cfg: &Cfg, rep: &mut Report, case_seed: u64, nm: usize) {
     let case = small_case(case_seed, nm);
+    c02_check(cfg, rep, case_seed, &case);
+}
+
+pub fn c02_check(cfg: &Cfg, rep: &mut Report, case_seed: u64, case: &SmallCase) {
     let mut rng = Rng::new(case_seed ^ 0xC02);
     let want = case.sem.complete();
     let grounded = case.sem.grounded();
@@ -341,6 +386,12 @@ pub fn c02_case(cfg: &Cfg, rep: &mut Report, case_seed: u64, nm: usize) {
 
 pub fn c03(cfg: &Cfg, rep: &mut Report) {
     let nm = nmax(cfg);
+    if cfg.shard == 0 && !cfg.flag("no_exhaustive") {
+        for (i, case) in all_tiny_adfs().iter().enumerate() {
+            c03_check(cfg, rep, i as u64, case);
+            rep.count("exhaustive_tiny_adfs", 1);
+        }
+    }
     for i in 0..cfg.cases {
         if rep.too_many() {
             break;
@@ -356,6 +407,10 @@ pub fn stable_nontrivial(sem: &Sem, stable: &[Vec<Val>]) -> bool {
 
 pub fn c03_case(cfg: &Cfg, rep: &mut Report, case_seed: u64, nm: usize) {
     let case = small_case(case_seed, nm);
+    c03_check(cfg, rep, case_seed, &case);
+}
+
+pub fn c03_check(cfg: &Cfg, rep: &mut Report, case_seed: u64, case: &SmallCase) {
     let mut rng = Rng::new(case_seed ^ 0xC03);
     let want = case.sem.stable();
     rep.evaluations += 1;
@@ -405,6 +460,12 @@ pub fn c04(cfg: &Cfg, rep: &mut Report) {
     // permanent regression witnesses (pre-study D1)
     for (i, w) in C04_WITNESSES.iter().enumerate() {
         c04_text(cfg, rep, w, i as u64);
+    }
+    if cfg.shard == 0 && !cfg.flag("no_exhaustive") {
+        for (i, case) in all_tiny_adfs().iter().enumerate() {
+            c04_check(cfg, rep, i as u64, case, &SORTS);
+            rep.count("exhaustive_tiny_adfs", 1);
+        }
     }
     for i in 0..cfg.cases {
         if rep.too_many() {
@@ -566,6 +627,12 @@ pub fn c05(cfg: &Cfg, rep: &mut Report) {
             };
             let rs = cfg.get_usize("rand_seeds", 16);
             c05_check(cfg, rep, i as u64, &case, rs);
+        }
+    }
+    if cfg.shard == 0 && !cfg.flag("no_exhaustive") && cfg.get("rand_seeds").is_none() {
+        for (i, case) in all_tiny_adfs().iter().enumerate() {
+            c05_check(cfg, rep, i as u64, case, 2);
+            rep.count("exhaustive_tiny_adfs", 1);
         }
     }
     for i in 0..cfg.cases {
